@@ -10,7 +10,7 @@ from sa.targets_model import Target, kind_arities, known_names
 from sa.oracles import targets as O
 from sa.paths import enumerate_paths, calls_in, call_name, dotted, event_has_call
 from sa.defuse import origins
-from rules.C05 import check_kind_templates, check_constants, check_make_constant, check_printer_state_not_rebound
+from rules.C05 import check_kind_templates, check_constants, check_make_constant, check_printer_state_not_rebound, check_template_nesting_by_parsing
 
 
 def run(repo, tier):
@@ -36,6 +36,7 @@ def run(repo, tier):
     # ---------------------------------------------------------------- xla_client tables
     X = Target(repo, "xla_client")
     check_kind_templates(r, X, arities, rules=dict(arity="R6.1", parse="R6.1", sem="R6.1", bind="R6.1"))
+    check_template_nesting_by_parsing(r, X, rule="R6.1")
     # its constants are printed by the constant target (cpp) — table must stay empty or be meaningful
     for name, val in X.consts.items():
         raise AnalysisError(f"xla_client.constant_to_target[{name}] appeared; the constant oracle for XLA is not written")
